@@ -264,7 +264,15 @@ def run_sizing(params, known):
             if res[0] != 'ok':
                 viol('send-call-failed', dict(), repr(res), case)
                 continue
-            world.quiesce()
+            try:
+                world.quiesce()
+            except HarnessError:
+                # the pacing timer goes on for ever (100000 loop steps, more than 15 minutes of virtual time) and the
+                # transfer is not reported finished: the bundle never leaves the node completely
+                fin = [s_ for s_ in world.signals['S'] if s_[0] == 'send_bundle_finished']
+                viol('transmission-never-completes', dict(), '%d datagrams sent, finished signals %r, pacing timer still running after %d s of virtual time'
+                     % (len(world.net.log), fin[-2:], world.clock.now_us // 1000000), case)
+                continue
             if world.escaped:
                 esc = world.escaped[-1]
                 viol('exception-escaped-callback', dict(exc=esc[1]), '%s: %s' % (esc[1], esc[3]), case)
